@@ -38,7 +38,9 @@ SEPS = ['/', '\\', '//']
 LEADS = ['', '/', '\\']
 ROOTS = ['@T/root', '@T/root/', 'root', './root/', 'rootx/../root',
          # the process works in a directory BELOW the served one: the root is spelled with parent references only
-         'cd=root/sub;..', 'cd=root/sub;../', 'cd=root;.', 'cd=root/sub;./..']
+         'cd=root/sub;..', 'cd=root/sub;../', 'cd=root;.', 'cd=root/sub;./..',
+         # the empty string as root (what os.path.dirname('app.py') gives): the working directory
+         'cd=root;']
 
 
 def root_and_cwd(spec, T):
@@ -85,7 +87,9 @@ def shards(tier, seed):
         out.append((ri, None, 3, 'r'))
     # characters that only LOOK like dots and slashes (fullwidth full stop, two-dot leader, fullwidth solidus): ordinary name characters
     for ri in (0, 2):
-        for extra in ('\uff0e\uff0e', '\u2025', '\uff0e', '..\uff0fabove.txt', '\uff0f'):
+        for extra in ('\uff0e\uff0e', '\u2025', '\uff0e', '..\uff0fabove.txt', '\uff0f',
+                      # percent-encoded spellings: ordinary name characters for static_file (decoding is the server's business)
+                      '%2e%2e', '%2e.', '..%2fabove.txt', '%2f', '%252e%252e'):
             out.append((ri, None, 3, extra))
     # conditional requests (If-Modified-Since in the future): outside names stay 403 / 404, inside files answer 304
     for ri in (0, 2):
